@@ -349,6 +349,11 @@ func judgeC11(c c11Case) (v core.Verdict) {
 func c11Wait(wg *sync.WaitGroup) string {
 	done := make(chan struct{})
 	go func() { wg.Wait(); close(done) }()
+	return waitOrDeadlock(done)
+}
+
+// waitOrDeadlock: "" once done is closed; a description of the blocked goroutines if they block each other for good.
+func waitOrDeadlock(done <-chan struct{}) string {
 	picture := func() (string, bool) {
 		buf := make([]byte, 1<<22)
 		buf = buf[:runtime.Stack(buf, true)]
